@@ -82,6 +82,15 @@ def documents(name, tier):
                 if n > WORD_CAP[tier]:
                     break
                 yield 'word:' + ','.join(w), V.xml_for_word(name, w)
+            # the long documents: transition cover and pumped cycles of the content-model DFA (the C02 families) - where
+            # repeated groups (part-group brackets, midi pairs, chords) get long enough to be re-ordered
+            from mc.checks import C02
+            fam = C02.word_families(t, tier)[0]
+            seen = set()
+            for w, f in fam.items():
+                if f in ('tcover', 'pump', '2switch') and WORD_LEN[tier] < len(w) <= 9 and w not in seen:
+                    seen.add(w)
+                    yield 'word:' + ','.join(w), V.xml_for_word(name, w)
 
 
 def pretty(text):
@@ -178,7 +187,9 @@ def judge(chunk):
                 continue
             d = docs.compare(ET.fromstring(text), ET.fromstring(s.value), 'any-numeric')
             if d:
-                vio.append({'scope': name, 'kind': 'valid-input-altered', 'key': key, 'observed': d, 'input': text[:400]})
+                # the key says HOW the document was altered (first difference), so that a different alteration of a
+                # document that is already altered on the pinned tree is a different violation
+                vio.append({'scope': name, 'kind': 'valid-input-altered', 'key': key + [d[:160]], 'observed': d, 'input': text[:400]})
             else:
                 oc['valid_read_back_equal'] += 1
         else:
